@@ -341,8 +341,9 @@ Proof.
   xstep. rewrite (chk_I32 (- (1))) by lia. xstep.
   rewrite !(rf_load_cell m rb blk (0 + 1 * 4) _ Hm Hc) by lia. xstep. rewrite !wrap_I32_id by exact Hg.
   destruct (grpcnt <=? 2); xstep; [rewrite (chk_I32 (- (1))) by lia; reflexivity|].
-  destruct (Z.land flg 2 =? 0); cbn [negb]; xstep; (destruct (Z.land flg 4 =? 0); cbn [negb]; xstep);
-    rewrite ?(rf_load_cell m rb blk (0 + 1 * 4) _ Hm Hc) by lia; xstep; rewrite ?wrap_I32_id by exact Hg; reflexivity.
+  destruct (Z.land flg 2 =? 0) eqn:E2; destruct (Z.land flg 4 =? 0) eqn:E4;
+    repeat (progress (rewrite ?E2, ?E4; cbn [negb]; xstep; rewrite ?(rf_load_cell m rb blk (0 + 1 * 4) _ Hm Hc) by lia; rewrite ?wrap_I32_id by exact Hg));
+    reflexivity.
 Qed.
 
 Lemma rf_msize grpcnt : 0 <= grpcnt <= 2147483647 ->
